@@ -100,6 +100,42 @@ impl<M: lock_api::RawMutex, T> LockOf for GenericMutex<M, T> {
 type Noop = <LocalMutex<()> as LockOf>::L;
 type Pl = parking_lot::RawMutex;
 
+/// A lock type that is Send but not Sync (its flag is a `Cell`): legal for single-threaded use,
+/// must never be reachable from two threads.
+#[allow(dead_code)]
+struct SendOnlyLock(Cell<bool>);
+unsafe impl lock_api::RawMutex for SendOnlyLock {
+    #[allow(clippy::declare_interior_mutable_const)]
+    const INIT: SendOnlyLock = SendOnlyLock(Cell::new(false));
+    type GuardMarker = lock_api::GuardNoSend;
+    fn lock(&self) {
+        self.0.set(true)
+    }
+    fn try_lock(&self) -> bool {
+        !self.0.replace(true)
+    }
+    unsafe fn unlock(&self) {
+        self.0.set(false)
+    }
+}
+/// A lock type that is Sync but not Send (thread-affine: has to be destroyed where it was created).
+#[allow(dead_code)]
+struct SyncOnlyLock(std::sync::atomic::AtomicBool, PhantomData<std::sync::MutexGuard<'static, ()>>);
+unsafe impl lock_api::RawMutex for SyncOnlyLock {
+    #[allow(clippy::declare_interior_mutable_const)]
+    const INIT: SyncOnlyLock = SyncOnlyLock(std::sync::atomic::AtomicBool::new(false), PhantomData);
+    type GuardMarker = lock_api::GuardNoSend;
+    fn lock(&self) {
+        while self.0.swap(true, std::sync::atomic::Ordering::Acquire) {}
+    }
+    fn try_lock(&self) -> bool {
+        !self.0.swap(true, std::sync::atomic::Ordering::Acquire)
+    }
+    unsafe fn unlock(&self) {
+        self.0.store(false, std::sync::atomic::Ordering::Release)
+    }
+}
+
 /// Sync but not Send (like a std MutexGuard)
 #[derive(Clone)]
 #[allow(dead_code)]
@@ -206,6 +242,8 @@ fn main() {
     let mut out: Vec<String> = Vec::new();
     per_lock!(out, Pl, "pl");
     per_lock!(out, Noop, "noop");
+    per_lock!(out, SendOnlyLock, "lsend");
+    per_lock!(out, SyncOnlyLock, "lsync");
     fact!(out, "LocalTimerFuture", LocalTimerFuture<'static>);
     fact!(out, "TimerFuture", TimerFuture<'static>);
     fact!(out, "Payload|sendsync", TSendSync);
